@@ -916,10 +916,13 @@ func v0MutateKV(r *Rng, secs [][]v0KV) [][]v0KV {
 		s = append(s, v0KV{[]byte{3}, []byte{byte(r.Pick(0, 0, 1)), 0, 0, 0}})
 	case 8: // final script next to signing fields
 		s = append(s, v0KV{[]byte{byte(r.Pick(7, 8))}, r.Bytes(r.Pick(0, 1, 30))})
-	case 9: // a 45-byte witness utxo: 44 meaningful bytes and one of padding
+	case 9: // a 45-byte witness utxo: 44 meaningful bytes and one of padding (or 36 + 8 with a null value)
 		if si > 0 {
 			v := append(append(append([]byte{1}, r.Bytes(32)...), append([]byte{1}, r.Bytes(8)...)...), 0, 0)
 			v = append(v, byte(r.Intn(256)))
+			if r.Chance(25) {
+				v = append(append(append([]byte{1}, r.Bytes(32)...), 0, 0, 0), r.Bytes(r.Pick(7, 8, 9))...)
+			}
 			ns := []v0KV{{[]byte{1}, v}}
 			for _, kv := range s {
 				if kv.k[0] > 1 {
@@ -1007,7 +1010,7 @@ func genV0RawCases(r *Rng, n int, w *bufio.Writer) {
 	}
 }
 
-// ---------- what the wire format can carry (mirror of Model/PsetV0.v v0_wf_core / v0_wu45_all) ----------
+// ---------- what the wire format can carry (mirror of Model/PsetV0.v v0_wf_core / v0_wufloor_all) ----------
 
 const v0MaxKey, v0MaxVal = 10000, 4000000
 
@@ -1038,9 +1041,6 @@ func v0DersOK(l []*psbt.Bip32Derivation, strictPath bool) bool {
 	seen := map[string]bool{}
 	for _, d := range l {
 		if !v0ValidPk(d.PubKey) || 1+len(d.PubKey) > v0MaxKey || 4+4*len(d.Bip32Path) > v0MaxVal {
-			return false
-		}
-		if strictPath && len(d.Bip32Path) == 0 {
 			return false
 		}
 		if seen[string(d.PubKey)] {
@@ -1120,12 +1120,17 @@ func v0WfCore(p *pset.Pset, strictPath bool) bool {
 			return false
 		}
 	}
+	for _, u := range p.Unknowns { // global: any key type, duplicates allowed, but not the separator
+		if len(u.Key) == 0 || len(u.Key) > v0MaxKey || len(u.Value) > v0MaxVal {
+			return false
+		}
+	}
 	return true
 }
 
-func v0Wu45(p *pset.Pset) bool {
+func v0WuFloor(p *pset.Pset) bool {
 	for i := range p.Inputs {
-		if o := p.Inputs[i].WitnessUtxo; o != nil && len(v0SerWu(o)) < 45 {
+		if o := p.Inputs[i].WitnessUtxo; o != nil && len(v0SerWu(o)) < 44 {
 			return false
 		}
 	}
@@ -1170,7 +1175,7 @@ func v0Parse(bs []byte) (p *pset.Pset, status string) {
 
 func v0WfToks(p *pset.Pset) string {
 	core := v0WfCore(p, true)
-	return fmt.Sprintf("wf=%s wfcore=%s", b2s(core && v0Wu45(p)), b2s(core))
+	return fmt.Sprintf("wf=%s wfcore=%s", b2s(core && v0WuFloor(p)), b2s(core))
 }
 
 func runV0(t *Toks) string {
